@@ -115,6 +115,25 @@ spec_probe!(bin_specs, Binary,
     ("{:#b}", "{:#b}"), ("{:>70b}", "{:>70b}"), ("{:<70b}", "{:<70b}"), ("{:^70b}", "{:^70b}"), ("{:*^9b}", "{:*^9b}"),
     ("{:+b}", "{:+b}"), ("{:070b}", "{:070b}"), ("{:#070b}", "{:#070b}"), ("{:1b}", "{:1b}"));
 
+spec_probe!(display_specs_precise, Display,
+    ("{:.0}", "{:.0}"), ("{:.4}", "{:.4}"), ("{:12.3}", "{:12.3}"), ("{:<9.300}", "{:<9.300}"), ("{:>300}", "{:>300}"), ("{:_^41}", "{:_^41}"));
+spec_probe!(hex_specs_precise, LowerHex,
+    ("{:.0x}", "{:.0x}"), ("{:.4x}", "{:.4x}"), ("{:12.3x}", "{:12.3x}"), ("{:<9.300x}", "{:<9.300x}"), ("{:>300x}", "{:>300x}"), ("{:_^41x}", "{:_^41x}"));
+spec_probe!(bin_specs_precise, Binary,
+    ("{:.0b}", "{:.0b}"), ("{:.4b}", "{:.4b}"), ("{:12.3b}", "{:12.3b}"), ("{:<9.300b}", "{:<9.300b}"), ("{:>300b}", "{:>300b}"), ("{:_^41b}", "{:_^41b}"));
+
+/// All spec outputs of a table type in one list (for differential use: two types printing the same function must
+/// give the same strings under every spec, whatever those strings are).
+pub fn all_spec_outputs<D: Display + LowerHex + Binary>(d: &D) -> Vec<(&'static str, String)> {
+    let mut v = display_specs(d);
+    v.extend(hex_specs(d));
+    v.extend(bin_specs(d));
+    v.extend(display_specs_precise(d));
+    v.extend(hex_specs_precise(d));
+    v.extend(bin_specs_precise(d));
+    v
+}
+
 /// Judge the outputs of a spec probe: every output must carry the canonical text.  Returns the number of
 /// outputs checked or (spec, output) of the first that does not.
 pub fn judge_specs(outs: &[(&'static str, String)], canonical: &str, radix_prefix: Option<&str>) -> Result<usize, (String, String)> {
